@@ -76,7 +76,27 @@ def random_model(rng, max_per_class=3, share_bias=0.5, allow_negative_store=Fals
                               country=f"c{rng.randint(1, n_c)}", devices=devs, starts=vals, start=start)
         ups.append(f"up{i}")
     m["sys"] = new_obj("System", usage_patterns=ups)
+    _zero_some_input(m)
     return m
+
+
+# inputs for which 0 is a valid value (nothing is divided by them)
+ZERO_OK = [("Job", "data_transferred"), ("Job", "data_stored"), ("Job", "ram_needed"), ("Job", "compute_needed"),
+           ("Device", "carbon_footprint_fabrication"), ("Device", "power"), ("Storage", "idle_power"), ("Server", "idle_power"),
+           ("Server", "base_ram_consumption"), ("Server", "base_compute_consumption"), ("Network", "bandwidth_energy_intensity"),
+           ("Country", "average_carbon_intensity")]
+
+
+def _zero_some_input(m):
+    """in one model out of four, one or two inputs are exactly 0 (a job that transfers nothing, a device already amortised, ...);
+    decided from the model's content, so that the caller's random stream is left as it was"""
+    import json
+    import zlib
+    zr = __import__("random").Random(zlib.crc32(json.dumps(m, sort_keys=True).encode()))
+    if zr.random() < 0.25:
+        cands = [(n, a) for n in sorted(m) if not n.startswith("__") for a in sorted(m[n]["inp"]) if (m[n]["cls"], a) in ZERO_OK]
+        for n, a in zr.sample(cands, min(len(cands), zr.choice([1, 2]))):
+            m[n]["inp"][a] = [0, m[n]["inp"][a][1]]
 
 
 def fresh_up_name(model):
@@ -112,6 +132,8 @@ def _random_input_edit(rng, model):
         mv = [base[0] * rng.choice(FACTORS + [1]), base[1]]
         if a in ("base_storage_need",):
             mv = [rng.choice([0, 1, 5]), "TB"]
+        elif (cls, a) in ZERO_OK and rng.random() < 0.12:
+            mv = [0, base[1]]
     if mv == model[o]["inp"][a]:
         return None
     return ("input", o, a, mv)
